@@ -440,7 +440,7 @@ func TestVerifC03(t *testing.T) {
 		}
 	})
 
-	n := r.N(4000, 500000)
+	n := r.N(4000, 160000)
 	r.Cases("hist", n, func(i int, id string, rng *vk.Rand) {
 		h := c03Gen(rng)
 		if r.WantSample() {
